@@ -56,6 +56,7 @@ var All = map[string]func(*Ctx){
 		c.registryStable("C04.registry")
 		c.ctxUserFirst("C04.subject")
 		c.loginLooksUpFirst("C04.lookup-first")
+		c.configVerbatim("C04.config-verbatim", "LockAfter", "LockWindow", "LockDuration")
 		c.compareWhole("C04.compare-whole", exactPkgs("ab/otp", "ab/otp/twofactor/sms2fa", "ab/otp/twofactor/totp2fa"))
 	}),
 	"C05": seq(C05, func(c *Ctx) {
@@ -65,6 +66,7 @@ var All = map[string]func(*Ctx){
 		c.utcInstants("C05.utc")
 		c.supersededOnEveryRequest("C05.supersede-always")
 		c.compareWhole("C05.compare-whole", inPkgs("ab/confirm", "ab/recover"))
+		c.configVerbatim("C05.config-verbatim", "RecoverTokenDuration")
 	}),
 	"C06": seq(C06, func(c *Ctx) { c.ctxUserFirst("C06.subject") }, withExplanation(C07)),
 	"C07": seq(C07, func(c *Ctx) {
@@ -91,6 +93,7 @@ var All = map[string]func(*Ctx){
 		c.noStateAfterWrite("C09.before-write")
 		c.afterHandlersUnconditional("C09.after-unconditional")
 		c.delAllQueued("C09.delall-queued")
+		c.configVerbatim("C09.config-verbatim", "ExpireAfter")
 	}),
 	"C10": seq(C10, func(c *Ctx) {
 		c.delAllQueued("C10.delall-queued")
@@ -100,6 +103,7 @@ var All = map[string]func(*Ctx){
 		c.noStateAfterWrite("C11.before-write")
 		c.readStateErrors("C11.read-err")
 		c.clientStoresPerRequest("C11.stores-per-request")
+		c.ctxParentIsRequest("C11.ctx-parent")
 	}),
 	"C12": seq(C12, (*Ctx).smsInvariant, func(c *Ctx) {
 		c.localizeFallback("C12.status-text")
@@ -143,6 +147,7 @@ var All = map[string]func(*Ctx){
 		c.lockAnswersLocked("C16.locked-answer")
 		c.recoverStartQuiet("C16.recover-quiet")
 		c.loginLooksUpFirst("C16.lookup-first")
+		c.recoverStartNoOwnVerdict("C16.recover-own-error")
 		if uls := c.P.FuncOpt("(*ab/lock.Lock).updateLockedState"); uls != nil {
 			c.lockEveryAttempt("C16.every-attempt", uls)
 		}
@@ -164,6 +169,7 @@ var All = map[string]func(*Ctx){
 		c.zeroValueInvoke("C18.zero-value", nil)
 		c.assertAfterErrCheck("C18.assert-after-check")
 		c.nilResultUse("C18.nil-result")
+		c.noCredentialRestore("C18.no-restore")
 	}, borrow(C05, "C05.supersede", "C18.mail-after-save", func(o Obligation) bool { return o.Rule == "C05.supersede" })),
 	"C19": seq(C19, (*Ctx).hasherPassThrough),
 	"C20": seq(C20, func(c *Ctx) {
